@@ -2,9 +2,10 @@
 """Prints the prompt given to an independent sub-agent that seeds a property-breaking change."""
 import json, sys
 pid, n = sys.argv[1], (sys.argv[2] if len(sys.argv) > 2 else "2")
+rnd = sys.argv[3] if len(sys.argv) > 3 else ""
 p = [json.loads(l) for l in open('/verif/properties.jsonl') if json.loads(l)['id'] == pid][0]
-wt = "/tmp/wt-%s" % pid
-out = "/tmp/mut-%s" % pid
+wt = "/tmp/wt-%s%s" % (pid, rnd and "-r"+rnd)
+out = "/tmp/mut-%s%s" % (pid, rnd and "-r"+rnd)
 print(f"""You are helping to evaluate a test suite for the Go project metallb/metallb (a bare-metal Kubernetes load-balancer). You have your own scratch git worktree of the repository at {wt} . Work ONLY inside {wt} and {out} (create {out}). Do NOT read or touch /verif or /repo, and do not use the network (there is none).
 
 Here is a semantic property the code base is supposed to satisfy:
@@ -19,6 +20,7 @@ Your task: produce {n} DIFFERENT, realistic changes (mutations / plausible bugs,
 For each change k (k = 1..{n}) deliver in {out}/k/ :
   - patch.diff : `git diff` of the change against the worktree HEAD (only non-test source files of metallb);
   - demo_test.go (or a small main program) plus a line in README.md telling exactly where to copy it (which package directory) and the exact command to run it: a demonstration that FAILS with the change applied and PASSES without it;
+  - demo.env : exactly three lines `PKG=<package directory relative to the repository root where the demo file is copied>`, `RUN=<regular expression for go test -run selecting the demo test(s)>`, `RACE=<1 if the demo must run under -race, else 0>`; the demo must be a single file named demo_test.go that works when copied into PKG under a different file name;
   - README.md : what the change is, why it breaks the property, what it needs in order to manifest, and the commands you ran with their observed results (existing tests still passing with the change; demo failing with / passing without).
 
 Build/test instructions for this sandbox: run go commands from {wt} with the environment `GOFLAGS=-mod=mod GOPROXY=off` (do NOT set GOTOOLCHAIN or GOSUMDB). Example: `cd {wt} && GOFLAGS=-mod=mod GOPROXY=off go test -vet=off -count=1 ./internal/config/`. The first build takes a while. Some packages have tests that need Docker or etcd and fail for environmental reasons regardless of your change (internal/bgp/frr needs Docker: run it with `-run 'TestNothing'` to only compile; in internal/k8s/controllers the test TestManager needs etcd - ignore that one); compare with the unchanged tree to tell. The packages whose tests matter are those containing the files you touch, plus `./controller/ ./speaker/ ./internal/...` where quick to run.
